@@ -31,7 +31,37 @@ def run(cmd, cwd=None, env=None, timeout=1800):
     return p.returncode, p.stdout, p.stderr
 
 
+def rebuild_from_seeded(prop):
+    """Recreate an agent-style <dir>/mutants/<name>/ tree from /verif/seeded for re-evaluation."""
+    import tempfile
+    root = tempfile.mkdtemp(prefix="seeded_src_%s_" % prop, dir="/tmp")
+    for d in sorted(os.listdir(os.path.join(VERIF, "seeded"))):
+        if not d.startswith(prop + "-"):
+            continue
+        src = os.path.join(VERIF, "seeded", d)
+        meta = json.load(open(os.path.join(src, "meta.json")))
+        tag = meta.get("round", "r1")
+        dest = os.path.join(root, tag, "mutants", meta["name"])
+        os.makedirs(dest)
+        shutil.copy(os.path.join(src, "patch.diff"), dest)
+        open(os.path.join(dest, "demo.py"), "w").write(
+            open(os.path.join(src, "demo.py")).read().replace("/repo", os.path.join(root, tag)))
+        open(os.path.join(dest, "notes.md"), "w").write(meta.get("needs", ""))
+    return root
+
+
 def main():
+    if sys.argv[1] == "--from-seeded":
+        prop = sys.argv[2]
+        root = rebuild_from_seeded(prop)
+        try:
+            for tag in sorted(os.listdir(root)):
+                argv = [sys.argv[0], os.path.join(root, tag), prop] + ([] if tag == "r1" else ["--tag", tag])
+                sys.argv = argv
+                main()
+        finally:
+            shutil.rmtree(root, ignore_errors=True)
+        return
     wt = sys.argv[1].rstrip("/")
     prop = sys.argv[2]
     scale = float(sys.argv[sys.argv.index("--scale") + 1]) if "--scale" in sys.argv else 1.0
